@@ -23,7 +23,7 @@ def nonneg(rf):
 def check(cx):
     rep = Report('C05')
     mid = c04.mid_slope(cx, rep, 'C05')
-    f = c04.fn(cx, 'spline::f_dx')
+    f = c04.mid_fn(cx)
     if mid is not None and f is not None:
         inst = f['path']
         file, line = fn_loc(f)
